@@ -123,6 +123,8 @@ fn val() -> BoxedStrategy<Val> {
         // (no backslash: the documentation defines no escape syntax for string literals)
         3 => "[ !#-\\[\\]-~]{0,10}".prop_map(Val::Str),
         1 => "\\PC{0,5}".prop_map(|s| Val::Str(s.replace('"', "'").replace('\\', "/"))),
+        // characters whose upper / lower case form has another UTF-8 length (byte offsets computed on a case-folded copy go wrong)
+        1 => prop::collection::vec(prop::sample::select(vec!["ı", "ΐ", "ﬁ", "İ", "ß", "ǰ", "ŉ", "a", " ", "Z"]), 1..6).prop_map(|v| Val::Str(v.concat())),
         3 => any::<i64>().prop_map(Val::Int),
         2 => (-1000i64..1000).prop_map(Val::Int),
         2 => (-9_000_000i64..9_000_000).prop_map(Val::Dec),
@@ -173,6 +175,9 @@ pub struct QAst {
     /// terminals, which the parser must reject (an accepted command would carry a different value than the text)
     #[serde(default)]
     pub oversize: Option<u8>,
+    /// wrap the query as REMEMBER <query> AS <name> (the parsed command must carry the same query tree and the name)
+    #[serde(default)]
+    pub remember: Option<String>,
 }
 
 const BIG: [&str; 10] = ["4294967296", "4294967297", "8589934602", "99999999999", "9223372036854775807", "9223372036854775808", "18446744073709551615", "18446744073709551616", "340282366920938463463374607431768211456", "00000000000000000000004294967296"];
@@ -202,10 +207,10 @@ fn qast() -> BoxedStrategy<QAst> {
         prop::collection::vec(any::<u8>(), 12),
         0u8..5,
         any::<u64>(),
-        crate::hist::opt_w(0.06, 0u8..20),
+        (crate::hist::opt_w(0.06, 0u8..20), crate::hist::opt_w(0.12, ident())),
     );
     (part1, part2)
-        .prop_map(|((find, head, links, link_field, ctx, since, using, using_time), (ret, wh, aggs, per, by, limit, offset, order, perm, variant, case_bits, oversize))| {
+        .prop_map(|((find, head, links, link_field, ctx, since, using, using_time), (ret, wh, aggs, per, by, limit, offset, order, perm, variant, case_bits, (oversize, remember)))| {
             // at most one source for the time field (USING f, PER .. USING f, BY .. USING f): the last one wins otherwise
             let mut using = using;
             let mut per = per;
@@ -221,7 +226,7 @@ fn qast() -> BoxedStrategy<QAst> {
             if per.is_none() {
                 per = None;
             }
-            QAst { find, head, links, link_field, ctx, since, using, using_time, ret, wh, aggs, per, by, limit, offset, order, perm, variant, case_bits, oversize }
+            QAst { find, head, links, link_field, ctx, since, using, using_time, ret, wh, aggs, per, by, limit, offset, order, perm, variant, case_bits, oversize, remember: if find { None } else { remember } }
         })
         .boxed()
 }
@@ -476,6 +481,13 @@ fn run_roundtrip(q: &QAst, rep: &mut CaseReport) -> Verdict {
             }
         };
     }
+    let (text, expected) = match &q.remember {
+        Some(name) if text.trim_start().to_ascii_uppercase().starts_with("QUERY") => {
+            rep.label("wrapped:remember");
+            (format!("REMEMBER {} AS {}", text, name), Command::RememberQuery { spec: snel_db::command::types::MaterializedQuerySpec { name: name.clone(), query: Box::new(expected) } })
+        }
+        _ => (text, expected),
+    };
     match parse_guarded(&text) {
         Err(p) => Verdict::fail("parse-panic", json!({"text": text, "panic": p})),
         Ok(Err(e)) => Verdict::fail("well-formed-command-rejected", json!({"text": text, "error": e})),
